@@ -1,4 +1,4 @@
-\* shutdown signalled only at a quiescent moment: everything was dispatched and invoked exactly once (QuiescentComplete)
+\* quick: shutdown signalled only at a quiescent moment: everything was dispatched and invoked exactly once (QuiescentComplete)
 CONSTANTS
   c1 = c1
   c2 = c2
@@ -6,9 +6,9 @@ CONSTANTS
   w1 = w1
   w2 = w2
   w3 = w3
-  Clients <- CS2
-  MaxMsgs = 1
-  MaxPings = 0
+  Clients <- CS1
+  MaxMsgs = 2
+  MaxPings = 1
   Workers <- WS2
   Heartbeat = FALSE
   Reply <- ReplyUni
@@ -19,5 +19,6 @@ CONSTANTS
 INIT Init
 NEXT Next
 SYMMETRY Sym
+VIEW MCView
 INVARIANTS TypeOK CurInStreams DispatchInvs InvocationInvs DeliveryInvs QuiescentComplete
 CHECK_DEADLOCK FALSE
